@@ -54,7 +54,10 @@ Definition pr_interval (iv : tinterval) : list token :=
 
 Inductive stmt :=
 | SCond (iv : tinterval) (c : expr)        (* a.conditions: "{interval} {cond};" *)
-| SEff (tm : timing) (e : effect).         (* a.effects: _convert_effect *)
+| SEff (tm : timing) (e : effect)          (* a.effects: _convert_effect; e_cond = the condition as the converter prints it *)
+| SEffW (tm : timing) (e : effect).        (* an effect whose STORED condition is not the constant TRUE (Effect.is_conditional()
+                                              looks at the unsimplified condition, e.g. Not(FALSE)) while the condition the
+                                              converter prints, e_cond, is: written "when true {...}".  Outside stmt_ok. *)
 
 Definition kind_tok (k : ekind) : token :=
   match k with KAssign => TAssign | KInc => TIncrease | KDec => TDecrease end.
@@ -70,6 +73,10 @@ Section Printer.
     (if is_cond e then TWhen :: pr W (e_cond e) ++ [TLb] else []) ++
     pr W (EFluent (e_fl e) (e_args e)) ++ kind_tok (e_kind e) :: pr W (e_val e) ++ [TSemi] ++
     (if is_cond e then [TRb; TSemi] else []).
+  (* the same with the `when` block forced (SEffW) *)
+  Definition pr_effect_core_w (e : effect) : list token :=
+    (TWhen :: pr W (e_cond e) ++ [TLb]) ++
+    pr W (EFluent (e_fl e) (e_args e)) ++ kind_tok (e_kind e) :: pr W (e_val e) ++ [TSemi] ++ [TRb; TSemi].
 
   Definition pr_stmt (s : stmt) : list token :=
     match s with
@@ -79,6 +86,11 @@ Section Printer.
         (if is_forall e
          then TForall :: TLp :: pr_vars W (e_vars e) ++ TRp :: TLb :: pr_effect_core e ++ [TRb; TSemi]
          else pr_effect_core e)
+    | SEffW tm e =>
+        TLsq :: pr_timing tm ++ TRsq ::
+        (if is_forall e
+         then TForall :: TLp :: pr_vars W (e_vars e) ++ TRp :: TLb :: pr_effect_core_w e ++ [TRb; TSemi]
+         else pr_effect_core_w e)
     end.
 End Printer.
 
@@ -295,6 +307,10 @@ Definition norm_stmt (s : stmt) : pstmt :=
   match s with
   | SCond iv c => PCond iv (norm c)
   | SEff tm e => PEff tm (norm_effect e)
+  | SEffW tm e =>
+      PEff tm {| e_fl := e_fl e; e_args := map norm (e_args e); e_val := norm (e_val e);
+                 e_cond := if is_forall e then EAnd [norm (e_cond e); EBool true] else norm (e_cond e);
+                 e_kind := e_kind e; e_vars := e_vars e; e_isbool := e_isbool e |}
   end.
 
 (* ------------------------------------------------------------------------------------------------ fragment *)
@@ -322,5 +338,6 @@ Section Fragment.
     match s with
     | SCond iv c => interval_ok iv && anml_ok R arity [] c
     | SEff tm e => timing_ok tm && effect_ok e
+    | SEffW _ _ => false
     end.
 End Fragment.
